@@ -51,6 +51,13 @@ let () =
             r := r'
           done;
           print_string "E\n"
+      | "S1" :: rest ->
+          (* S1 <n0> <nv> <j> : only the state after j steps *)
+          let w = Array.of_list (List.map int_of_string rest) in
+          let n0 = w.(0) and nv = w.(1) and j = w.(2) in
+          let ws = List.init n0 (fun i -> n_of_int (1000 + i)) and vs = List.init nv (fun i -> n_of_int (1000 + n0 + i)) in
+          let o = sie_observed ws vs (nat_of_int j) in
+          Printf.printf "S %d %s\n" j (String.concat " " (List.map (fun x -> string_of_int (int_of_n x)) o))
       | "S" :: rest ->
           (* S <n0> <nv> : file holding samples 1000..1000+n0-1, writer appends nv further samples (values 1000+i);
              prints every state a reader can decode: "S j v v v ..." *)
